@@ -319,6 +319,8 @@ def run(repo, check):
     check.add(r9)
     from sa.rules.common import share
     share(check, repo, c01.rule_r5, 'C05.R11', 'descriptors handed to the (compressed and uncompressed) primitives carry the width that is read (shared with C01.R5)')
-    check.assumptions = ['nbits_for_uint ranges over unbounded integers and is not folded; its argument is checked',
+    from sa.rules import columns
+    share(check, repo, columns.rule_columns, 'C05.R12', args=(check.tier, 'C05.R12'))
+    check.assumptions = ['nbits_for_uint is folded on both sides of every power of two up to 64 bits (R12), not for every integer',
                          'one asymmetry is deliberately not compared: only the code/flag routine re-tests min + difference against the all-ones '
                          'pattern of the element (raw all-ones numerics decode differently compressed / uncompressed; outside the stated raw domain)']
